@@ -412,6 +412,7 @@ class ProgGen(object):
         self.zero_div = zero_div                  # probability that the divisor of a `/` or `%` is zero (the program then ends in an error)
         self.self_rels = schema.get('rels', [])   # [(rel, source class, target class)]: simple associations usable with the NAME self
         self.self_deleted = False
+        self.snapshot_done = False
         self.budget = max_stmts
         self.max_depth = max_depth
         self.params = list(params)            # [(name, ty)]
@@ -920,6 +921,8 @@ class ProgGen(object):
                 choices += [('if_call', 5), ('while_call', 3)]
         if depth < self.max_depth and self.budget > 2:
             choices += [('if', 14), ('while', 7), ('foreach', 9), ('arith_guard', 3)]
+        if self.loop_depth == 0 and self.allow_mutation and self.create_in_loops and not self.snapshot_done:
+            choices += [('snapshot', 5)]
         if self.loop_depth > 0:
             choices += [('loopctl', 6)]
         if depth > 0:
@@ -1627,6 +1630,45 @@ class ProgGen(object):
             self.lookup(setv).dead = True
         return pre + [['foreach', lv, setv, body]]
 
+    def st_snapshot(self, depth):
+        """an instance set held in a variable ACROSS creates / deletes: `select many` delivers a snapshot, not the live
+        pool.  The cardinality of the held set - read inside the loop that creates / deletes, after it, and by iterating
+        the held set once more - stays what it was; a second select sees the changed pool."""
+        r = self.rng
+        self.snapshot_done = True
+        cls = r.choice(self.cls_names)
+        mode = r.choice(['create', 'create', 'delete', 'both']) if self.allow_delete else 'create'
+        if mode != 'create':
+            for modes in self.loop_del:
+                if modes.get(cls, 'none') != 'any':
+                    mode = 'create'
+        S, S2 = self.fresh(cls.lower() + 's'), self.fresh(cls.lower() + 's')
+        c0, cin, c1, c2, k = [self.fresh('i') for _ in range(5)]
+        e, e2, z = self.fresh(cls.lower()), self.fresh(cls.lower()), self.fresh('z')
+        where = self.where_for(cls) if r.random() < 0.3 else None
+        out = [['select_from', 'many', S, cls, where],
+               ['assign', c0, ['un', 'cardinality', ['var', S]]],
+               ['assign', cin, ['int', 0]]]
+        body = []
+        if mode in ('create', 'both'):
+            body += [['create', z, cls], ['setattr', ['var', z], 'n', ['bin', '+', ['var', c0], ['int', 100]]]]
+        if mode in ('delete', 'both'):
+            body += [['delete', e]]
+        body += [['assign', cin, ['bin', '+', ['bin', '*', ['var', cin], ['int', 2]], ['un', 'cardinality', ['var', S]]]]]
+        out += [['foreach', e, S, body],
+                ['assign', c1, ['un', 'cardinality', ['var', S]]],
+                ['select_from', 'many', S2, cls, None],
+                ['assign', c2, ['un', 'cardinality', ['var', S2]]],
+                ['assign', k, ['int', 0]],
+                ['foreach', e2, S, [['assign', k, ['bin', '+', ['var', k], ['int', 1]]]]]]
+        if mode != 'create':
+            self.mark_deleted(cls)
+        self.declare(S, V('set', cls, dead=(mode != 'create')))
+        self.declare(S2, V('set', cls))
+        for n in (c0, cin, c1, c2, k):
+            self.declare(n, V('integer'))
+        return out
+
     def st_loopctl(self, depth):
         r = self.rng
         kind = r.choice(['break', 'continue', 'continue'])
@@ -1689,6 +1731,10 @@ def gen_kwargs(rng):
     if rng.random() < 0.3:
         params.append(('r', 'boolean'))
         kwargs['r'] = rng.random() < 0.5
+    if 'p' in kwargs and rng.random() < 0.3:
+        # two parameters whose names differ in letter case only are two parameters
+        params.append(('P', 'integer'))
+        kwargs['P'] = rng.choice([4, 9, -6, 11])
     return params, kwargs
 
 
